@@ -62,24 +62,32 @@ func key(b json.RawMessage) string {
 	return o.String()
 }
 
+const callerSlot = "the-caller's-own-next-element"
+
 const (
 	authz, user, pass = "authz", "user", "sekrit-pass"
 	extIdentity       = ""
 )
 
 type rig struct {
-	s    *sess.Session
-	seen int
-	mech string
-	disc chan struct{}
-	nrec int
+	s       *sess.Session
+	seen    int
+	mech    string
+	disc    chan struct{}
+	nrec    int
+	backing []string
 }
 
 func newRig(st *stateRec) (*rig, string) {
 	r := &rig{mech: st.Mech}
 	r.s = sess.New(func(c *client.Config) {
 		c.EnableCapabilityNegotiation = true
-		c.Capabilites = append([]string{}, st.Wanted...)
+		// the caller's list has spare capacity, the slot behind it holds something of the caller's
+		backing := make([]string, len(st.Wanted), len(st.Wanted)+2)
+		copy(backing, st.Wanted)
+		backing[:len(st.Wanted)+1][len(st.Wanted)] = callerSlot
+		r.backing = backing
+		c.Capabilites = backing
 		switch st.Mech {
 		case "PLAIN":
 			c.Sasl = sasl.NewPlainClient(authz, user, pass)
@@ -273,6 +281,9 @@ func (r *rig) apply(e *edge, check bool, universe []string) string {
 	}
 	if collapse(rest) != collapse(wantRest) {
 		msgs = append(msgs, fmt.Sprintf("after %s (%s) the client wrote %q, the model expects %q", e.O.Ev, render(&e.O), rest, wantRest))
+	}
+	if b := r.backing; b != nil && b[:len(b)+1][len(b)] != callerSlot {
+		msgs = append(msgs, fmt.Sprintf("the client wrote %q into the caller's capability list (behind Config.Capabilites)", b[:len(b)+1][len(b)]))
 	}
 	held := map[string]bool{}
 	for _, c := range e.ts.Held {
